@@ -651,6 +651,14 @@ def _baseline(run):
         # ---- stand-in for the epoch's optimiser steps, then the real epoch-end hook -------------------
         if plan["noise_scale"] > 0:
             PU.perturb_policy(policy.inner, plan["noise"][ep % len(plan["noise"])], plan["noise_scale"])
+        # perturbation: a validation pass between epochs the way hand-written loops (and older Lightning) do it:
+        # model.eval() ... model.train().  Both propagate to every sub-module, the frozen baseline policy included;
+        # the values attached at the next wrap are still the baseline policy's inference-mode rewards
+        if run.chooser.pick(2, lambda: run.chooser.rng.randrange(2)) == 1:
+            model.eval()
+            model.train()
+            run.fault("mode_flip_between_epochs")
+            run.probe("mode_flip_between_epochs")
         before = getattr(rb, "policy", None)
         torch.manual_seed(run.streams.torch_seed(f"epoch-end-{ep}"))
         n_wraps = len(wraps)
